@@ -189,6 +189,9 @@ func c10(r *core.Run) {
 					if b, ok := x.Call.Value.(*ssa.Builtin); ok && b.Name() == "delete" {
 						nRemove++
 					}
+					if strings.HasPrefix(core.CalleeFullName(x), "maps.DeleteFunc") {
+						nRemove++
+					}
 				case *ssa.MapUpdate:
 					if x.Map.Type().Underlying().String() != "map[string]string" {
 						return
